@@ -174,7 +174,8 @@ def encode_url(url_str: str) -> "URL":
             cache["raw_user"] = None
             cache["raw_password"] = None
         else:
-            raw_user = REQUOTER(username) if username else username
+            # quoting drops lone surrogates: a user made of nothing else is no user
+            raw_user = (REQUOTER(username) or None) if username else username
             raw_password = REQUOTER(password) if password else password
             netloc = make_netloc(raw_user, raw_password, host, port)
             cache["raw_user"] = raw_user
